@@ -61,7 +61,12 @@ func (C13) Generate(rng *rand.Rand, tier string, runIdx uint64) simkit.Plan {
 			if ids[k] == 0 {
 				ids[k] = len(ids) + 1
 			}
-			s := Step{Op: "ixn.legacy.set", ID: IxnUUID(ids[k]), Name: src, Svc: dst, Text: act()}
+			id := ids[k]
+			if simkit.Chance(rng, 30) {
+				// update by id that moves the intention to another pair (changes its specificity)
+				id = 1 + rng.IntN(len(ids))
+			}
+			s := Step{Op: "ixn.legacy.set", ID: IxnUUID(id), Name: src, Svc: dst, Text: act()}
 			if simkit.Chance(rng, 15) {
 				s.Op = "ixn.legacy.delete"
 			}
@@ -106,6 +111,36 @@ func (C13) Generate(rng *rand.Rand, tier string, runIdx uint64) simkit.Plan {
 	return p
 }
 
+// c13Units labels every step with its unit: steps of one unit keep their order in every
+// interleaving. Legacy intentions are addressed by id and by pair, so a unit is a connected
+// component of steps sharing either.
+func c13Units(steps []Step) []string {
+	parent := map[string]string{}
+	var find func(string) string
+	find = func(x string) string {
+		if parent[x] == "" || parent[x] == x {
+			parent[x] = x
+			return x
+		}
+		parent[x] = find(parent[x])
+		return parent[x]
+	}
+	for _, s := range steps {
+		if strings.HasPrefix(s.Op, "ixn.legacy") {
+			parent[find("id:"+s.ID)] = find("pair:" + s.Name + ">" + s.Svc)
+		}
+	}
+	out := make([]string, len(steps))
+	for i, s := range steps {
+		if strings.HasPrefix(s.Op, "ixn.legacy") {
+			out[i] = find("id:" + s.ID)
+		} else {
+			out[i] = c13Unit(s)
+		}
+	}
+	return out
+}
+
 func c13Unit(s Step) string {
 	switch {
 	case strings.HasPrefix(s.Op, "ixn."):
@@ -131,18 +166,19 @@ func interleave(steps []Step, seed int) []int {
 		}
 		return out
 	}
+	units := c13Units(steps)
 	rng := simkit.NewRNG(uint64(seed))
 	perm := rng.Perm(n)
 	// positions handed to each unit, then refilled in original order
 	byUnit := map[string][]int{}
 	for pos, idx := range perm {
-		u := c13Unit(steps[idx])
+		u := units[idx]
 		byUnit[u] = append(byUnit[u], pos)
 	}
 	out := make([]int, n)
 	next := map[string]int{}
 	for idx := 0; idx < n; idx++ {
-		u := c13Unit(steps[idx])
+		u := units[idx]
 		ps := byUnit[u]
 		sorted := append([]int{}, ps...)
 		sort.Ints(sorted)
@@ -151,7 +187,7 @@ func interleave(steps []Step, seed int) []int {
 	}
 	// "!first" steps lead
 	sort.SliceStable(out, func(i, j int) bool {
-		return c13Unit(steps[out[i]]) == "!first" && c13Unit(steps[out[j]]) != "!first"
+		return units[out[i]] == "!first" && units[out[j]] != "!first"
 	})
 	return out
 }
@@ -213,6 +249,7 @@ func (C13) runOrder(p *Plan, seed int, r *simkit.Run) (*c13Obs, *simkit.Violatio
 	}
 	order := interleave(p.Steps, seed)
 	model := ixnModel{}
+	byID := map[string]string{}
 	mk := func(class, inv, culprit, detail string) *simkit.Violation {
 		return &simkit.Violation{Property: "C13", Class: class, Invariant: inv, Step: len(order), Culprit: culprit, Detail: detail}
 	}
@@ -231,16 +268,20 @@ func (C13) runOrder(p *Plan, seed int, r *simkit.Run) (*c13Obs, *simkit.Violatio
 			continue
 		}
 		switch s.Op {
-		case "ixn.mut.upsert", "ixn.legacy.set":
+		case "ixn.mut.upsert":
+			model[s.Name+"@>"+s.Svc] = s.Text
+		case "ixn.legacy.set":
+			if old, ok := byID[s.ID]; ok {
+				delete(model, old)
+			}
+			byID[s.ID] = s.Name + "@>" + s.Svc
 			model[s.Name+"@>"+s.Svc] = s.Text
 		case "ixn.mut.delete":
 			delete(model, s.Name+"@>"+s.Svc)
 		case "ixn.legacy.delete":
-			// by ID: find the pair of that ID among earlier steps
-			for _, o := range p.Steps {
-				if o.ID == s.ID && o.Op == "ixn.legacy.set" {
-					delete(model, o.Name+"@>"+o.Svc)
-				}
+			if old, ok := byID[s.ID]; ok {
+				delete(model, old)
+				delete(byID, s.ID)
 			}
 		case "ce.upsert", "ce.delete":
 			var m struct {
